@@ -130,13 +130,13 @@ class ShuffleContinuumSampler(AbstractContinuumSampler):
                 if segment.end <= pivot + dist:
                     continue
                 else:
-                    new_segments.append(Segment(pivot + dist, segment.end))
+                    new_segments.append(Segment(max(pivot + dist, segment.start), segment.end))
             else:
                 if segment.end > pivot + dist:
                     new_segments.append(Segment(segment.start, pivot - dist))
                     new_segments.append(Segment(pivot + dist, segment.end))
                 else:
-                    new_segments.append(Segment(segment.start, pivot - dist))
+                    new_segments.append(Segment(segment.start, min(pivot - dist, segment.end)))
         return new_segments
 
     def _random_from_segments(self, segments: List[Segment]) -> float:
